@@ -316,6 +316,47 @@ pub fn run(cfg: &Cfg, rep: &mut Report) {
       }
     }
   }
+  // the stream is ended from the side (a merged sibling satisfies the cutter,
+  // a take_until notifier fires) while an operator above the producer forwards
+  // nothing: the producer must still learn that the stream is over
+  let swallow = [
+    Op::SkipUntil(Box::new(Chain::new(Src::Never, vec![]))),
+    Op::Filter(Pred::False),
+    Op::FilterMap(Pred::False, MapF::Add(1)),
+    Op::SkipWhile(Pred::True),
+    Op::Skip(100_000),
+    Op::IgnoreElements,
+    Op::Last,
+    Op::TakeLast(2),
+    Op::Reduce,
+    Op::Count,
+    Op::Collect,
+    Op::SkipLast(100_000),
+    Op::Sample(Box::new(Chain::new(Src::Never, vec![]))),
+    Op::Buffer(Box::new(Chain::new(Src::Never, vec![]))),
+  ];
+  let side = [
+    Op::Merge(Box::new(Chain::new(Src::Of(V::I(1)), vec![]))),
+    Op::Merge(Box::new(Chain::new(Src::Timer(V::I(1), 2), vec![]))),
+    Op::TakeUntil(Box::new(Chain::new(Src::Of(V::I(1)), vec![]))),
+    Op::TakeUntil(Box::new(Chain::new(Src::Timer(V::I(1), 2), vec![]))),
+  ];
+  for d in &swallow {
+    for t in &side {
+      for p in &prods {
+        for flavor in [Flavor::Local, Flavor::Threads] {
+          idx += 1;
+          let mut r = rng.fork();
+          if !cfg.mine(idx) {
+            continue;
+          }
+          let c = Case { prod: p.clone(), secondary: None, middle: vec![d.clone(), t.clone()], cutter: Op::Take(1), flavor, policy: Policy::Fifo, seed: r.next() };
+          rep.count("ended_from_the_side_cases", 1);
+          check(cfg, rep, &format!("side:{}", idx), &c);
+        }
+      }
+    }
+  }
   // producer as secondary / notifier input of every two-input operator
   for op in two {
     for p in &prods {
